@@ -375,6 +375,9 @@ type Machine struct {
 	ghostAssert     bool
 	allocGuardID    string
 	allocGuardBound int64
+	freshCount      int
+	trimCache       map[*Term]*Term
+	splitCache      map[string][]*Term
 }
 
 type sliceRef struct {
@@ -403,6 +406,8 @@ func runPath(eng *Engine, cfg Config, fn *ssa.Function, prefix []Decision, solve
 		sideTables:  map[string]map[*Value]Value{},
 		lazyAddr:    map[*Value]*ssa.Global{},
 		namedErrs:   map[string]Value{},
+		trimCache:   map[*Term]*Term{},
+		splitCache:  map[string][]*Term{},
 		trace:       cfg.Trace,
 		traceW:      os.Stderr,
 		harnessName: cfg.Harness,
